@@ -358,6 +358,12 @@ func (stub *stub) Start(ctx context.Context) (retErr error) {
 	if err != nil {
 		return err
 	}
+	defer func() {
+		if retErr != nil {
+			// do not reuse the connection of a failed start
+			stub.conn = nil
+		}
+	}()
 
 	rpcm := multiplex.Multiplex(stub.conn)
 	defer func() {
